@@ -264,7 +264,7 @@ def parts(tier):
         Part("pows", "enum", enum=enum_pows, exhaustive=True, shards=16),
         Part("gen", "hyp", strategy=gen_pair(), n=300000 if big else 12000),
         Part("good", "hyp", strategy=gen_good(), n=300000 if big else 12000),
-        Part("universe", "hyp", strategy=universe.gen_ops_case(), n=200000 if big else 6000, chunk=1500),
+        Part("universe", "hyp", strategy=universe.gen_ops_case(max_base=4 if big else 3, max_steps=20 if big else 12), n=300000 if big else 6000, chunk=1500),
     ]
 
 
